@@ -13,7 +13,7 @@ def main(tier):
             return
         chk.note("builder_lab", {k: v for k, v in res.items() if k != "mismatches"})
         chk.evaluations += res["exhaustive_histories"] + res["random_histories"]
-        chk.nontrivial.update(("lab", i) for i in range(res["with_insert"] + res["with_truncate"]))
+        chk.nontrivial_extra += res["with_insert"]     # histories with an insertion (those with a truncation overlap: not added twice)
         for m in res["mismatches"]:
             kind = "token-sequence" if m["what"].startswith("C01") else ("panic" if "panics" in m["what"] else "tree")
             chk.violation(f"lab:{kind}", "builder lab: " + m["what"], {"history": m["history"], "what": m["what"]})
